@@ -1,2 +1,305 @@
-(* Props_C09_host — reserved. *)
+(* C09 — hostname routes match the whole host; path-only routes are the fallback.  Owner: p-host.
+   Only statements closed by [exact]; non-vacuity examples next to them.  Notes: docs/C09_host.md *)
 From FoxBase Require Import Bytes.
+From FoxRoute Require Import Node Lookup HostPort Spec Tree Corr StaticEquiv StaticEquiv2 HostEquiv HostEquiv2.
+From FoxRoute Require SpecSound.
+Open Scope char_scope.
+
+(* ================================================================== *)
+(* 1. StripHostPort                                                     *)
+(* ================================================================== *)
+(* strip_host_port is a total function on byte lists (no index expression survives in the model:
+   the only slicing of the Go code is guarded), hence it never panics — on "", ".", ":80" either. *)
+Theorem strip_host_port_eq_spec : forall h, strip_host_port h = strip_spec h.
+Proof. exact strip_host_port_eq_spec_thm. Qed.
+Print Assumptions strip_host_port_eq_spec.
+
+(* host:port, host and port well formed: port and colon removed, then one trailing dot *)
+Theorem strip_removes_port : forall a port,
+  HostPort.plain a = true -> plain_port port = true -> contains port ":" = false ->
+  strip_host_port (a ++ ":" :: port) = trim_dot a /\ contains (strip_host_port (a ++ ":" :: port)) ":" = false.
+Proof. exact (fun a port H1 H2 H3 => conj (strip_host_colon_port a port H1 H2 H3) (strip_host_colon_port_noport a port H1 H2 H3)). Qed.
+Print Assumptions strip_removes_port.
+
+(* [v6]:port *)
+Theorem strip_removes_port_v6 : forall v6 port,
+  contains v6 "[" = false -> contains v6 "]" = false -> plain_port port = true -> contains port ":" = false ->
+  strip_host_port ("[" :: v6 ++ "]" :: ":" :: port) = trim_dot v6.
+Proof. exact strip_v6_port. Qed.
+Print Assumptions strip_removes_port_v6.
+
+(* hosts without ':' only lose a trailing dot; at most ONE trailing dot is ever removed *)
+Theorem strip_without_colon : forall h, contains h ":" = false -> strip_host_port h = trim_dot h.
+Proof. exact strip_no_colon. Qed.
+Print Assumptions strip_without_colon.
+
+Theorem trim_dot_at_most_one : forall s, (trim_dot s = s \/ s = trim_dot s ++ ["."]) /\ trim_dot (s ++ ["."]) = s.
+Proof. exact (fun s => conj (trim_dot_once s) (trim_dot_app_dot s)). Qed.
+Print Assumptions trim_dot_at_most_one.
+
+Example strip_examples :
+  strip_host_port (S2B "example.com:8080") = S2B "example.com" /\
+  strip_host_port (S2B "example.com.") = S2B "example.com" /\
+  strip_host_port (S2B "example.com..:80") = S2B "example.com." /\
+  strip_host_port (S2B "[::1]:443") = S2B "::1" /\
+  strip_host_port (S2B "::1") = S2B "::1" /\                       (* not host:port: unchanged *)
+  strip_host_port (S2B ".") = [] /\ strip_host_port (S2B ":80") = [] /\ strip_host_port [] = [] /\
+  HostPort.plain (S2B "example.com.") = true /\ plain_port (S2B "80") = true.
+Proof. vm_compute. repeat split. Qed.
+
+(* ================================================================== *)
+(* 3. roots.lookup: shortcut, hostname pass, fallback                   *)
+(* ================================================================== *)
+(* the shortcut: exactly when the method root's only child starts with '/' ([shortcut root]);
+   then the Host is not looked at *)
+Theorem shortcut_exact : forall fuel r m i root c0 host path lazy ps0 tps0,
+  method_index r m = Some i -> nth_error r i = Some root ->
+  nchildren root = [c0] -> starts_with "/" (nkey c0) = true ->
+  roots_lookup fuel r m host path lazy ps0 tps0 = lookup_by_path fuel c0 path lazy ps0 tps0.
+Proof. exact roots_lookup_shortcut. Qed.
+Print Assumptions shortcut_exact.
+
+(* otherwise, with a non-empty host: the hostname pass; its result stands whenever it returned a
+   node (direct or trailing-slash); the fallback runs exactly when it returned no node, on the
+   "/" child, with the parameters reset to [] and a fresh state (tsr = false, n = nil) *)
+Theorem fallback_exact : forall fuel r m i root host path lazy ps0 tps0,
+  method_index r m = Some i -> nth_error r i = Some root ->
+  nchildren root <> [] -> shortcut root = false -> host <> [] ->
+  roots_lookup fuel r m host path lazy ps0 tps0 =
+  match lookup_by_domain fuel root host path lazy ps0 tps0 with
+  | Found (Some n) t p tp => Found (Some n) t p tp
+  | Found None _ p tp =>
+      match get_edge root "/" with
+      | Some c => lookup_by_path fuel c path lazy [] tp
+      | None => Found None false p tp
+      end
+  | LPanic => LPanic
+  | LOutOfFuel => LOutOfFuel
+  end.
+Proof. exact roots_lookup_hostpass. Qed.
+Print Assumptions fallback_exact.
+
+Theorem fallback_iff_no_node : forall fuel r m i root host path lazy ps0 tps0,
+  method_index r m = Some i -> nth_error r i = Some root ->
+  nchildren root <> [] -> shortcut root = false -> host <> [] ->
+  ((exists t p tp, lookup_by_domain fuel root host path lazy ps0 tps0 = Found None t p tp /\
+                   roots_lookup fuel r m host path lazy ps0 tps0 = path_fallback fuel root path lazy p tp)
+   \/
+   (lookup_by_domain fuel root host path lazy ps0 tps0 = roots_lookup fuel r m host path lazy ps0 tps0 /\
+    forall t p tp, lookup_by_domain fuel root host path lazy ps0 tps0 <> Found None t p tp)).
+Proof. exact fallback_iff. Qed.
+Print Assumptions fallback_iff_no_node.
+
+(* empty (stripped) host: no hostname pass at all *)
+Theorem empty_host_path_only : forall fuel r m i root path lazy ps0 tps0,
+  method_index r m = Some i -> nth_error r i = Some root ->
+  nchildren root <> [] -> shortcut root = false ->
+  roots_lookup fuel r m [] path lazy ps0 tps0 = path_fallback fuel root path lazy ps0 tps0.
+Proof. exact roots_lookup_nohost. Qed.
+Print Assumptions empty_host_path_only.
+
+(* a method without hostname routes ignores the Host altogether *)
+Theorem host_ignored_without_hostname_routes : forall fuel r m host host' path lazy ps0 tps0,
+  (forall i root, method_index r m = Some i -> nth_error r i = Some root ->
+     NoDup (heads (nchildren root)) /\ forall c, In c (nchildren root) -> starts_with "/" (nkey c) = true) ->
+  roots_lookup fuel r m host path lazy ps0 tps0 = roots_lookup fuel r m host' path lazy ps0 tps0.
+Proof. exact host_ignored. Qed.
+Print Assumptions host_ignored_without_hostname_routes.
+
+(* ---- example trees (Tree.insert) ---- *)
+Definition ex_host_txn : txn :=
+  build [mk_rih "example.com/" 1 0; mk_rih "{sub}.example.com/x" 2 1; mk_rih "a.{h}.com/{id}/y" 3 2;
+         mk_rih "a.b.com/{id}/x" 4 1; mk_rih "/x" 5 0; mk_rih "/{v}" 6 1].
+Definition ex_root : node := get_root ex_host_txn.
+Definition ex_path_txn : txn := build [mk_rih "/x" 1 0; mk_rih "/{v}/y" 2 1].
+
+Example ex_fallback_hyps :
+  method_index (t_roots ex_host_txn) m_get = Some 0 /\ nth_error (t_roots ex_host_txn) 0 = Some ex_root /\
+  nchildren ex_root <> [] /\ shortcut ex_root = false /\
+  (* hostname pass returns no node -> fallback *)
+  (exists t p tp, lookup_by_domain big_fuel ex_root (S2B "zzz.org") (S2B "/x") false [] [] = Found None t p tp) /\
+  direct_obs (roots_lookup big_fuel (t_roots ex_host_txn) m_get (S2B "zzz.org") (S2B "/x") false [] []) = Some (S2B "/x", []) /\
+  (* hostname pass returns a node -> no fallback although "/{v}" would match *)
+  direct_obs (roots_lookup big_fuel (t_roots ex_host_txn) m_get (S2B "example.com") (S2B "/") false [] [])
+    = Some (S2B "example.com/", []) /\
+  (* path-only method: shortcut, Host ignored *)
+  shortcut (get_root ex_path_txn) = true.
+Proof. vm_compute. repeat split; try discriminate. do 3 eexists; reflexivity. Qed.
+
+Example ex_host_ignored_hyps : forall i root, method_index (t_roots ex_path_txn) m_get = Some i ->
+  nth_error (t_roots ex_path_txn) i = Some root ->
+  NoDup (heads (nchildren root)) /\ forall c, In c (nchildren root) -> starts_with "/" (nkey c) = true.
+Proof.
+  intros i root Hi Hr. vm_compute in Hi. inversion Hi; subst i. vm_compute in Hr. inversion Hr; subst root.
+  split; [apply nodupb_sound; vm_compute; reflexivity|]. intros c [<-|[]]. vm_compute. reflexivity.
+Qed.
+
+(* ================================================================== *)
+(* 4a. M1 = M2h: the hostname pass with its skipped-node stack is the DFS M2h  *)
+(* ================================================================== *)
+(* hroot_ok root: sibling keys below the method root start with distinct bytes; every child
+   satisfies the token invariant pwf (StaticEquiv2); each child is the "/"-subtree or a hostname
+   node (hostb: no route, key = host tokens — static bytes other than '{' '*' '/', {name} —,
+   children again hostname nodes or the "/"-subtree: the host->path split of WF).
+   nohslash host: no '/' byte in the (stripped) host.  No other condition on host or path. *)
+Theorem C09_M1_eq_M2h : forall host path root lazy fuel,
+  nohslash host -> hroot_ok root -> host <> [] -> hroot_fuel path root <= fuel ->
+  match m2h_root path root host with
+  | Some (l, vals) => found_as (lookup_by_domain fuel root host path lazy [] []) l (addp lazy [] vals)
+  | None => nodirect2 (lookup_by_domain fuel root host path lazy [] [])
+  end.
+Proof. exact lbd_eq_m2h. Qed.
+Print Assumptions C09_M1_eq_M2h.
+
+Example ex_host_hyps :
+  hroot_ok ex_root /\ nroute ex_root = None /\ nohslash (S2B "a.b.com") /\ hroot_fuel (S2B "/7/y") ex_root <= big_fuel /\
+  root_fuel (S2B "/7/y") ex_root <= big_fuel /\
+  pathok (S2B "/7/y") = true /\ root_side (S2B "/7/y") ex_root.
+Proof.
+  split; [apply hroot_okb_sound; vm_compute; reflexivity|]. split; [reflexivity|].
+  split; [apply nohslashb_sound; vm_compute; reflexivity|].
+  split; [apply Nat.leb_le; vm_compute; reflexivity|]. split; [apply Nat.leb_le; vm_compute; reflexivity|].
+  split; [reflexivity|]. left. vm_compute. reflexivity.
+Qed.
+
+(* backtracking is exercised: for a.b.com/7/y the static label "b" is tried first, its path part
+   "/{id}/x" fails, the skipped parameter label {h} is resumed *)
+Example ex_m2h_match :
+  option_map (fun r => (lpat (fst r), snd r)) (m2h_root (S2B "/7/y") ex_root (S2B "a.b.com"))
+    = Some (S2B "a.{h}.com/{id}/y", [(S2B "h", S2B "b"); (S2B "id", S2B "7")]).
+Proof. vm_compute. reflexivity. Qed.
+
+(* ================================================================== *)
+(* 2. host_exact                                                        *)
+(* ================================================================== *)
+(* A DIRECT match of the hostname pass (on M1 itself): the returned route's pattern splits into host
+   tokens ht and a rest bt starting with '/'; ht matches the WHOLE host label for label
+   ([SpecSound.Matches ht host |host| hvals]: static bytes equal, {name} = one non-empty label part up
+   to the next '.' or the end of the host) — never a mere prefix, suffix or infix of the host; bt
+   matched the path below the host->path split node x (M2 of StaticEquiv2, = S by C01_M2_eq_Spec);
+   the parameters are the host values then the path values. *)
+Theorem host_exact : forall host path root lazy fuel n pss tpss,
+  nohslash host -> hroot_ok root -> host <> [] -> hroot_fuel path root <= fuel ->
+  lookup_by_domain fuel root host path lazy [] [] = Found (Some n) false pss tpss ->
+  exists rt ht bt hvals x l kvp,
+    nroute n = Some rt /\ In rt (flat_map routes_s (nchildren root)) /\
+    rpat rt = render ht ++ render bt /\
+    forallb htok_ok ht = true /\ forallb tok_ok bt = true /\ (exists q, render bt = "/" :: q) /\
+    SpecSound.Matches ht host (List.length host) hvals /\
+    List.length hvals = List.length (wildcard_names ht) /\
+    starts_with "/" (nkey x) = true /\ pwf (render ht) x /\ m2 x path = Some (l, kvp) /\ nroute l = Some rt /\
+    map fst kvp = wildcard_names bt /\
+    pss = addp lazy [] (combine (wildcard_names ht) hvals ++ kvp).
+Proof. exact host_exact_thm. Qed.
+Print Assumptions host_exact.
+
+Example ex_host_exact :
+  (exists n tpss, lookup_by_domain big_fuel ex_root (S2B "foo.example.com") (S2B "/x") false [] []
+                  = Found (Some n) false [(S2B "sub", S2B "foo")] tpss) /\
+  (* host merely starts with / ends with / contains the pattern's host: no hostname match *)
+  direct_obs (lookup_by_domain big_fuel ex_root (S2B "example.comx") (S2B "/") false [] []) = None /\
+  direct_obs (lookup_by_domain big_fuel ex_root (S2B "example.com.evil.org") (S2B "/") false [] []) = None /\
+  direct_obs (lookup_by_domain big_fuel ex_root (S2B "xexample.com") (S2B "/") false [] []) = None /\
+  direct_obs (lookup_by_domain big_fuel ex_root (S2B "example.co") (S2B "/") false [] []) = None /\
+  direct_obs (lookup_by_domain big_fuel ex_root (S2B "a.b.c.com") (S2B "/7/y") false [] []) = None.
+Proof. vm_compute. repeat split. do 2 eexists; reflexivity. Qed.
+
+(* what the repaired guard charsMatched == len(host) protects: lbd_v b is a verbatim copy of lbd
+   whose decision after the walk loop drops that conjunct when b = false *)
+Theorem lbd_variant_faithful : forall fuel host path lazy ph s,
+  lbd_v true fuel host path lazy ph s = lbd fuel host path lazy ph s.
+Proof. exact lbd_v_fixed. Qed.
+Print Assumptions lbd_variant_faithful.
+
+Example host_exact_without_fix_refuted :
+  hroot_ok ex_root /\ nohslash (S2B "example.comx") /\
+  direct_obs (lookup_by_domain_v false big_fuel ex_root (S2B "example.comx") (S2B "/") false [] [])
+    = Some (S2B "example.com/", []) /\
+  direct_obs (lookup_by_domain_v false big_fuel ex_root (S2B "example.com.evil.org") (S2B "/") false [] [])
+    = Some (S2B "example.com/", []) /\
+  direct_obs (lookup_by_domain_v true big_fuel ex_root (S2B "example.comx") (S2B "/") false [] []) = None /\
+  direct_obs (lookup_by_domain big_fuel ex_root (S2B "example.comx") (S2B "/") false [] []) = None.
+Proof.
+  split; [apply hroot_okb_sound; vm_compute; reflexivity|].
+  split; [apply nohslashb_sound; vm_compute; reflexivity|]. vm_compute. repeat split.
+Qed.
+
+(* ================================================================== *)
+(* 4b. stage 5 of M1 = S: hostnames                                     *)
+(* ================================================================== *)
+(* the FULL statement (not proved; never used as a hypothesis): M1_eq_Spec_statement of
+   Props_C01_static.v, whose WF covers method trees with hostname routes *)
+Definition M1_eq_Spec_host_statement (WF : roots -> Prop) : Prop :=
+  forall r, WF r -> forall method host path,
+  exists fuel0, forall fuel, fuel0 <= fuel ->
+    direct_obs (roots_lookup fuel r method host path false [] []) =
+    sres_direct (spec_lookup (method_patterns r method) host path).
+
+(* M2h = S.  Side conditions: host non-empty without '/'; the path is empty or starts with '/'
+   (pathok); root_side: okpath path (no '*' byte, no empty segment) or no catch-all in the tree *)
+Theorem C09_M2h_eq_Spec : forall root host path,
+  hroot_ok root -> nroute root = None -> host <> [] -> nohslash host -> pathok path = true ->
+  root_side path root ->
+  select_in (map rpat (routes_of_node root)) host path true = res_of [] (m2h_root path root host).
+Proof. exact spec_eq_m2h. Qed.
+Print Assumptions C09_M2h_eq_Spec.
+
+(* M1 = S for the hostname pass: same route, same parameter values (host values, then path values) *)
+Theorem C09_hostpass_eq_Spec : forall root host path fuel,
+  hroot_ok root -> nroute root = None -> host <> [] -> nohslash host -> pathok path = true ->
+  root_side path root -> hroot_fuel path root <= fuel ->
+  direct_obs (lookup_by_domain fuel root host path false [] []) =
+  match select_in (map rpat (routes_of_node root)) host path true with
+  | Some (p, vals) => Some (p, name_values p vals)
+  | None => None
+  end.
+Proof. exact lbd_eq_spec. Qed.
+Print Assumptions C09_hostpass_eq_Spec.
+
+Theorem C09_hostpass_lazy_route : forall root host path fuel lazy,
+  hroot_ok root -> nroute root = None -> host <> [] -> nohslash host -> pathok path = true ->
+  root_side path root -> hroot_fuel path root <= fuel ->
+  option_map fst (direct_obs (lookup_by_domain fuel root host path lazy [] [])) =
+  option_map fst (spec_direct_host (map rpat (routes_of_node root)) host path).
+Proof. exact lbd_eq_spec_lazy. Qed.
+Print Assumptions C09_hostpass_lazy_route.
+
+(* the stage reached, at the level roots_lookup / spec_lookup, for a method WITH hostname routes.
+   Missing for the full statement: (1) the link WF_txn => hroot_ok (as for pwf in stage 2-4: the
+   examples use the boolean checkers on trees built with Tree.insert); (2) [host_tsr_agree]: that M1
+   and S agree on WHETHER the hostname pass yields a trailing-slash recommendation when it has no
+   direct match — this is C08 for hostname trees and decides between "tsr of the hostname pass" and
+   "path-only fallback"; it is a hypothesis here, needed only when S has no direct hostname match. *)
+Theorem M1_eq_Spec_host_partial : forall r m i root host path fuel,
+  method_index r m = Some i -> nth_error r i = Some root -> nroute root = None ->
+  hroot_ok root -> nchildren root <> [] -> shortcut root = false ->
+  nohslash host -> pathok path = true -> root_side path root -> root_fuel path root <= fuel ->
+  (host <> [] -> select_in (map rpat (routes_of_node root)) host path true = None ->
+   host_tsr_agree fuel root host path) ->
+  direct_obs (roots_lookup fuel r m host path false [] []) =
+  sres_direct (spec_lookup (method_patterns r m) host path).
+Proof. exact roots_lookup_host_eq_spec. Qed.
+Print Assumptions M1_eq_Spec_host_partial.
+
+Definition ex_lk (h p : string) :=
+  direct_obs (roots_lookup big_fuel (t_roots ex_host_txn) m_get (S2B h) (S2B p) false [] []).
+Definition ex_sp (h p : string) :=
+  sres_direct (spec_lookup (method_patterns (t_roots ex_host_txn) m_get) (S2B h) (S2B p)).
+Example ex_host_match :
+  ex_lk "a.b.com" "/7/y" = Some (S2B "a.{h}.com/{id}/y", [(S2B "h", S2B "b"); (S2B "id", S2B "7")])
+  /\ ex_sp "a.b.com" "/7/y" = ex_lk "a.b.com" "/7/y"
+  /\ ex_lk "a.b.com" "/7/x" = Some (S2B "a.b.com/{id}/x", [(S2B "id", S2B "7")]) /\ ex_sp "a.b.com" "/7/x" = ex_lk "a.b.com" "/7/x"
+  /\ ex_lk "foo.example.com" "/x" = Some (S2B "{sub}.example.com/x", [(S2B "sub", S2B "foo")])
+  /\ ex_sp "foo.example.com" "/x" = ex_lk "foo.example.com" "/x"
+  /\ ex_lk "example.comx" "/q" = Some (S2B "/{v}", [(S2B "v", S2B "q")]) /\ ex_sp "example.comx" "/q" = ex_lk "example.comx" "/q"
+  /\ ex_lk "" "/x" = Some (S2B "/x", []) /\ ex_sp "" "/x" = ex_lk "" "/x"
+  /\ ex_lk "example.com" "/a/b" = None /\ ex_sp "example.com" "/a/b" = None.
+Proof. vm_compute. repeat split. Qed.
+
+(* the tsr-agreement hypothesis is satisfiable on a request whose hostname pass finds nothing *)
+Example ex_tsr_agree : host_tsr_agree big_fuel ex_root (S2B "example.comx") (S2B "/q") /\
+  select_in (map rpat (routes_of_node ex_root)) (S2B "example.comx") (S2B "/q") true = None.
+Proof.
+  split; [|vm_compute; reflexivity]. intros tn' t p tp H. vm_compute in H. inversion H; subst.
+  split; intros _; [vm_compute|]; reflexivity.
+Qed.
